@@ -120,6 +120,26 @@ function nullProtoCopy(v, depth = 0) {
 }
 
 // returns null or {clause, detail}
+// deep acyclic inputs: { next: { next: ... } }, [[[...]]], { payload: <deep> } under a union with unknown
+export const DEEP_PROBES = [
+  { id: "recursive-object", text: "type X = { v: number; next?: X };\nexport const Parsers = parse.buildParsers<{ X: X }>();\n", build: (d) => { let cur = { v: 0 }; for (let i = 1; i <= d; i++) cur = { v: i, next: cur }; return cur; } },
+  { id: "recursive-array", text: "type X = X[];\nexport const Parsers = parse.buildParsers<{ X: X }>();\n", build: (d) => { let cur = []; for (let i = 0; i < d; i++) cur = [cur]; return cur; } },
+  { id: "unknown-under-a-union", text: "type X = { kind: string; payload: unknown } | string;\nexport const Parsers = parse.buildParsers<{ X: X }>();\n", build: (d) => { let cur = { leaf: 1 }; for (let i = 0; i < d; i++) cur = { n: cur }; return { kind: "k", payload: cur }; } },
+  { id: "recursive-object-rejected-at-the-bottom", text: "type X = { v: number; next?: X };\nexport const Parsers = parse.buildParsers<{ X: X }>();\n", build: (d) => { let cur = { v: "bad" }; for (let i = 1; i <= d; i++) cur = { v: i, next: cur }; return cur; } },
+];
+export function deepTriple(parser, dp, depth) {
+  const v = dp.build(depth);
+  const rs = [call(() => parser.validate(v)), call(() => parser.safeParse(v)), call(() => parser.parse(v))];
+  const over = rs.find((r) => !r.ok && r.e instanceof RangeError && /call stack/.test(String(r.e.message)));
+  if (over) return { clause: "threw:stack-overflow-on-deeply-nested-input", detail: "RangeError: Maximum call stack size exceeded" };
+  if (!rs[0].ok) return { clause: "validate-threw", detail: String(rs[0].e && rs[0].e.message).slice(0, 120) };
+  if (!rs[1].ok) return { clause: "safeParse-threw", detail: String(rs[1].e && rs[1].e.message).slice(0, 120) };
+  if (rs[0].v !== rs[1].v.success) return { clause: "validate-vs-safeParse", detail: `validate=${rs[0].v} safeParse.success=${rs[1].v.success}` };
+  if (rs[0].v !== rs[2].ok) return { clause: "validate-vs-parse", detail: `validate=${rs[0].v} parse ${rs[2].ok ? "returned" : "threw"}` };
+  if (!rs[2].ok && !String(rs[2].e && rs[2].e.message).startsWith("Failed to parse X - ")) return { clause: "parse-threw-something-else", detail: String(rs[2].e && rs[2].e.message).slice(0, 120) };
+  return null;
+}
+
 export function checkTriple(parser, name, v, o, core, ref) {
   const before = snapshot(v);
   const va = call(() => parser.validate(v, o));
@@ -327,6 +347,21 @@ export async function run(ctx) {
         }
     }
   }
+  // deeply nested ACYCLIC inputs (built and judged without recursion on the monitor's side): the entry
+  // points must answer or fail with parse's documented error, whatever the depth
+  if (ctx.shard === 5 % ctx.of) {
+    for (const dp of DEEP_PROBES) {
+      const r = await compileText(ctx, dp.text);
+      if (!r.parsers) throw new Error("C03 deep probe does not compile: " + dp.id);
+      for (const depth of [50, 400, 3000, 20000, 100000]) {
+        const f = deepTriple(r.parsers.X, dp, depth);
+        ctx.judged();
+        ctx.count("deep_inputs");
+        ctx.distinct(`deep|${dp.id}|${depth}`);
+        if (f) ctx.violation({ signature: `${f.clause}|probe:${dp.id}`, clause: f.clause, detail: `${f.detail} :: ${dp.text.split("\n")[0]} on a value nested ${depth} deep`, replay: { kind: "deep", id: dp.id, depth, parser: "X", text: dp.text } });
+      }
+    }
+  }
   // impostors: objects that inherit from a built-in prototype without being one, subclasses, built-ins
   // with own properties, built-ins beff has no type for - bare and wrapped, against Map / Set / Date /
   // typed-array / unknown / object validators. Judged: nothing throws but parse's documented error,
@@ -460,6 +495,12 @@ export async function replay(ctx, c) {
     const rs = [call(() => p0.validate(v0, c.options)), call(() => p0.safeParse(v0, c.options)), call(() => p0.parse(v0, c.options))];
     const bad = !rs[0].ok || !rs[1].ok || rs[0].v !== rs[1].v.success || rs[0].v !== rs[2].ok || (!rs[2].ok && !String(rs[2].e && rs[2].e.message).startsWith(`Failed to parse ${c.parser} - `));
     return { violated: bad, value: `${c.wrap}(${c.value})`, results: rs.map((x) => (x.ok ? "returned" : "threw " + String(x.e && x.e.message).slice(0, 80))) };
+  }
+  if (c.kind === "deep") {
+    const dp = DEEP_PROBES.find((x) => x.id === c.id);
+    const r0 = await compileText(ctx, dp.text);
+    const f0 = deepTriple(r0.parsers.X, dp, c.depth);
+    return { violated: !!f0, fault: f0, value: `${c.id} nested ${c.depth} deep` };
   }
   if (c.kind === "adhoc") return { violated: false, note: "ad-hoc validators are rebuilt from the seed; replay by re-running the shard", describe: c.describe };
   const r = await compileText(ctx, c.text);
